@@ -61,7 +61,7 @@ SINK = """<mujoco>
       <site name="crank" pos="0.05 0.05 0.02"/>
       <camera name="c3" mode="track" pos="0.2 -0.1 0.3" quat="0.8660254 -0.2886751 0.2886751 0.2886751"/>
       <body name="tip" pos="0.1 0 0.2">
-        <joint name="bj" type="ball" pos="0.01 0.01 0" range="0 0.5" limited="true" damping="0.1" stiffness="1.5"/>
+        <joint name="bj" type="ball" pos="0.01 0.01 0" range="0 0.5" limited="true" margin="0.015" damping="0.1" stiffness="1.5"/>
         <geom name="gtip" size="0.04" contype="0" conaffinity="0" mass="0.2"/>
         <site name="stip" pos="0 0.03 0.06"/>
         <site name="slider" pos="0.02 0 0.1" quat="0.9238795 0.2209424 0.2209424 0.2209424"/>
